@@ -174,6 +174,17 @@ CHECKS['C09'] = (
     'Partial: the renderers themselves (string formatting, textwrap) are validated, not modelled.',
     BASE_NOTE + 'textwrap.', '6/C09')
 
+CHECKS['C17'] = (
+    'Lean 4 theorems about the add_from_components transition on a path->content directory (nothing that existed is ever changed, for any request and '
+    'any outcome, by induction over arbitrary sequences; a refused call writes nothing; existing element/table files and taken names are refused) + '
+    'differential execution of the transition against curate.add_basis on random operation sequences',
+    'Proof (on the model): add_monotone, add_sequence_monotone, add_refused_noop, add_refuses_existing, add_refuses_taken_name, add_needs_components. '
+    'Tie: directory after the model step = directory after the real step (file set and JSON content, index included) for every add_from_components step of '
+    'the sequences. On the real directories after every step: earlier files byte-identical, index = its regeneration, retrieval and default version in a '
+    'forked fresh process, reference forms, invalid input leaves the directory byte-for-byte unchanged. Partial: add_basis_from_dict / add_basis (reference '
+    'normalisation, readers) are validated by the sequences, not modelled.',
+    BASE_NOTE + 'file system as a map; today\'s date passed in.', '6/C17')
+
 NOT_YET = {}
 
 
